@@ -57,6 +57,17 @@ func main() {
 			}
 			return
 		}
+		if strings.HasPrefix(*dump, "src:") {
+			// the function as the rules see it (after the inlining normaliser)
+			want := strings.TrimPrefix(*dump, "src:")
+			for _, f := range c.AllFuncs() {
+				if strings.HasSuffix(f.Name, want) {
+					fmt.Println("//", f.Name)
+					fmt.Println(printNode(f.Pkg.Fset, f.Decl))
+				}
+			}
+			return
+		}
 		if strings.HasPrefix(*dump, "writes:") {
 			dumpWrites(c, strings.TrimPrefix(*dump, "writes:"))
 			return
